@@ -27,6 +27,7 @@
 #ifndef CJET_BUFFERED_SOCKET_H
 #define CJET_BUFFERED_SOCKET_H
 
+#include <stdbool.h>
 #include <stddef.h>
 #include <stdint.h>
 
@@ -66,6 +67,12 @@ struct buffered_socket {
 	void *read_callback_context;
 	void (*error)(void *error_context);
 	void *error_context;
+	/*
+	 * Set when a part of a frame has been handed to the kernel and
+	 * the rest of it can not be kept. Nothing may be sent on this
+	 * socket afterwards; it is closed from the event loop.
+	 */
+	bool broken;
 };
 
 struct buffered_socket *buffered_socket_acquire(void);
